@@ -20,6 +20,10 @@ CHECKS = {
   text="Coq theorems over a model of CreateUpdateMsgFromPaths / packerV4 / packerMP (last-action-wins de-duplication, per-family packers, grouping by attribute bytes and next hops, maxNLRIs chunking with Go's truncating division, the greedy byte-budget split): every emitted message fits the limit or carries exactly one route (oversize isolated, never a panic or a silent drop); the carried routes are as a multiset exactly the de-duplicated changes (no loss, no duplication) for every list/limit/ADD-PATH setting; last action per key wins; routes share a message only with identical attribute bytes and next hops; End-of-RIB kept. Because attribute bytes are abstracted to identities the theorems hold for every hash function and map order. Tie: differential execution against the real packer with byte-exact predicted sizes checked against Serialize (6k lists quick incl. 700-2500-route lists), plus a Python receiver oracle.",
   note="Trusted: Coq kernel; model, extraction, harness; identity abstraction of attribute bytes (equal identity <=> bytes.Equal); attribute Len() = serialised length (C04); the receiver-side equivalence fold is checked by the oracle, the theorems give the multiset/last-action facts it follows from. Cross path-id coalescing on non-ADD-PATH sessions is outside C11's key (belongs to C01). No axioms.",
   tech="Coq proof (integer arithmetic of the budgets, permutation/multiset reasoning over grouping and chunking) + differential correspondence with byte-exact size prediction", ref="DESIGN.md 5/C11"),
+ "C08": dict(
+  text="Coq theorems over a model of OPEN validation and negotiation (ValidateOpenMsg, getASN, open2Cap incl. ADD-PATH squashing, the Established branch of stateChange, keepaliveTicker, capabilitiesFromConfig/buildopen), for every local configuration and every received OPEN: acceptance conditions and the NOTIFICATION per refusal kind; hold = min; keepalive rule and no ticker at hold 0; negotiated families = configured intersect announced (no MP capability = IPv4 unicast), one entry per family, ADD-PATH send/receive only with the complementary remote direction, last tuple wins; 2-octet encoding iff the peer lacks the 4-octet capability; extended messages iff the peer announced them; peer kind from the announced AS; the OPEN sent reflects the configuration (AS_TRANS, real AS in the capability). Tie: differential execution of the real fsm functions on 8k generated (configuration, OPEN) pairs, the OPEN passing through Serialize+Parse, plus a Python restatement of the property as direct oracle.",
+  note="Trusted: Coq kernel; model, extraction, harness (pkg/server overlay hook calls handleOpen/stateChange on a fresh fsm with a stub connection); the options handed to ParseBGPBody/Serialize are read from the same fsm fields the hook reports (familyMap, twoByteAsTrans, extendedMessage); FQDN hostname, LLGR tuples and HelperOnly are not modelled. No axioms.",
+  tech="Coq proof (case analysis / list reasoning over capability lists) + differential correspondence", ref="DESIGN.md 5/C08"),
 }
 
 NOT_APPLICABLE = {}
